@@ -22,7 +22,8 @@ TIERS = {"quick": dict(runs=640, chunk=10), "thorough": dict(budget_s=480, max_r
 RUN_WALL_CAP = 120
 RULE = ("one case = 1-3 clients, each a template network config (T1 filter->[overhang]->SIMP->stiffness->LinSolve->compliance with "
         "solver variants; T2 SystemOfEquations; T3 StaticCondensation; T4 sparse generalised EigenSolve; T5 stress->von Mises->"
-        "aggregation with active set/undamped scaling->constraint Scaling; T6 complex dynamic stiffness; T7 thermo-mechanical chain) "
+        "aggregation with active set/undamped scaling->constraint Scaling; T6 complex dynamic stiffness; T7 thermo-mechanical chain; T8 dense "
+        "Inverse + dense EigenSolve + ConcatSignal of a signal and its slice) "
         "with a generated history of 3-25 operations (messy: repeated responses, several seeds, double sensitivity, missing resets, "
         "leftover seeds, partial cycles) + a schedule interleaving the clients + fault ops; distinct = distinct abstract traces; "
         "non-trivial = at least one checkpoint was compared after a non-empty prefix (an earlier cycle on the same network)")
@@ -55,6 +56,8 @@ def _client(rng, tier="quick"):
     cfg = templates.gen_cfg(rng)
     if cfg["solver"] == "cg_gmg" and cfg["t"] not in ("T1", "T5"):
         cfg["solver"] = "auto"
+    if cfg["t"] == "T8":
+        cfg.update(solver="auto", nx=min(cfg["nx"], 3), ny=min(cfg["ny"], 2))
     if cfg["t"] in ("T3", "T6") and cfg["solver"].startswith(("cg", "dense")):
         cfg["solver"] = "auto"
     if cfg["nload"] > 1 and cfg["solver"].startswith("cg"):
